@@ -3,18 +3,14 @@
    Model: Model/Lex.v (lexer/lexer.go + lexer/reader.go), Model/Pump.v (Parser.ReadPeek);
    proofs: Proofs/Lex*.v, Proofs/PumpTotal.v.
 
-   IMPORT POINT (integrator): the parser proper is modelled by property C02 (Model/Parse*.v).
-   When it is available, add here, closed by [exact] from C02's Proofs/Parse*.v
-   (parse_total, parse_no_crash, parse_error_located), the three statements
-       C01_parse_total         : forall s mode, parse (fuel_of s) mode s <> OutOfFuel
-       C01_parse_no_crash      : forall s mode, parse (fuel_of s) mode s <> Crash
-       C01_parse_error_located : parse ... = Err e -> In (tok e) (tokens of s)
-   The located-ness of the error token then follows from the lexer theorems below.  Until then
-   the parser is covered by the watchdog / oracle run of checks/c01.py only. *)
+   The parser half: Model/LexParse.v composes the lexer and pump model with C02's parser model
+   (Model/Parse*.v); the theorems C01_parse_* below are obtained from C02's parse_total /
+   parse_no_crash (Proofs/ParseDeclTotal.v) and the lexer fact C01_source_long_ok. *)
 From Coq Require Import List NArith ZArith.
-From Falco Require Import Base.Res Base.Bytes Base.Utf8 Gen.Tokens Model.Lex Model.Pump Model.LexSpec
+From Falco Require Gen.TokenTypes Model.ParseBase Model.Ast Model.ParseDecl Proofs.ParseExprTotal.
+From Falco Require Import Base.Res Base.Bytes Base.Utf8 Gen.Tokens Model.Lex Model.Pump Model.LexSpec Model.LexParse
   Proofs.LexTables Proofs.LexProgress Proofs.LexToken Proofs.PumpTotal Proofs.LexView Proofs.LexLocated Proofs.LexExtra
-  Proofs.LexTheorems Proofs.LexExamples.
+  Proofs.LexOpen Proofs.LexParse Proofs.LexTheorems Proofs.LexExamples Proofs.LexParseExamples.
 Import ListNotations.
 
 (* Totality: for EVERY byte string the token loop (NextToken until the first EOF), run with the
@@ -84,6 +80,47 @@ Proof. exact C01_pump_no_crash_proof. Qed.
 Theorem C01_pump_source_returns : forall s : list byte, exists ms, pump s = OK ms /\ ms <> [].
 Proof. exact pump_ok. Qed.
 
+(* ---- the parser half: bytes -> lexer -> pump -> parser model, for the three entry points ----
+   [parse_source fok mode s] = lexer.New(s), parser.New, then ParseVCL / ParseSnippetVCL /
+   ParseVCLOrSnippet (mode), over the parser model of C02; [fok] is the strconv.ParseFloat
+   accept/reject oracle, the theorems hold for every such oracle. *)
+
+(* the lexer fact C02's crash freedom needs: in the token list handed to the parser, the STRING
+   behind an OPEN_LONG_STRING never has Offset 2 *)
+Theorem C01_source_long_ok :
+  forall s ms, pump s = OK ms -> ParseExprTotal.long_ok (to_ptoks ms) = true.
+Proof. exact source_long_ok. Qed.
+
+Theorem C01_parse_total :
+  forall fok mode (s : list byte), parse_source fok mode s <> ParseBase.PFuel.
+Proof. exact parse_source_total. Qed.
+
+Theorem C01_parse_no_crash :
+  forall fok mode (s : list byte), parse_source fok mode s <> ParseBase.PCrash.
+Proof. exact parse_source_no_crash. Qed.
+
+(* every token the parser is given (hence every token it can put into a *ParseError) is a token
+   of the lexer and designates its text; the stream ends with the EOF meta *)
+Theorem C01_pump_tokens_located :
+  forall s ms m, pump s = OK ms -> In m ms -> designates (dec_all s) (mtok m).
+Proof. exact pump_tokens_located. Qed.
+
+Theorem C01_parse_eof_located :
+  forall s ms, pump s = OK ms ->
+  exists body m, ms = body ++ [m] /\ is_eof (mtok m) = true /\ designates (dec_all s) (mtok m).
+Proof. exact pump_eof_located. Qed.
+
+(* PARTIAL: a parse error is located PROVIDED its token is one of the parser's input tokens.
+   Missing: the parser-model lemma  parse_* fok ts = PErr k t rem -> In t ts \/ t = eof_tok
+   (C02 proves totality / crash freedom / yield, not the provenance of error tokens; the error
+   token index is compared with the real parser on every run instead). *)
+Theorem C01_parse_error_located_partial :
+  forall fok mode s ms k t rem,
+  pump s = OK ms -> parse_mode fok mode (to_ptoks ms) = ParseBase.PErr k t rem ->
+  In t (to_ptoks ms) ->
+  exists m, In m ms /\ conv (mtok m) = t /\ designates (dec_all s) (mtok m).
+Proof. exact parse_error_located_partial. Qed.
+
 (* T tie: the keyword table regenerated from token/token.go is the documented one; the token
    type names are pairwise distinct and none is empty. *)
 Theorem C01_keywords_documented : keywords = keywords_ref.
@@ -104,5 +141,11 @@ Print Assumptions C01_eof_stable.
 Print Assumptions C01_pump_total.
 Print Assumptions C01_pump_no_crash.
 Print Assumptions C01_pump_source_returns.
+Print Assumptions C01_source_long_ok.
+Print Assumptions C01_parse_total.
+Print Assumptions C01_parse_no_crash.
+Print Assumptions C01_pump_tokens_located.
+Print Assumptions C01_parse_eof_located.
+Print Assumptions C01_parse_error_located_partial.
 Print Assumptions C01_keywords_documented.
 Print Assumptions C01_token_types_distinct.
